@@ -45,7 +45,8 @@ PROBES = ['server:after-banner', 'server:after-command', 'server:mid-line',
           'client:banner', 'client:ehlo', 'client:mail', 'client:rcpt',
           'client:data', 'client:eod', 'client:quit', 'client:starttls',
           'client:tls-immediately', 'client:trickle', 'client:partial-reply',
-          'client:pipe', 'client:http', 'client:lmtp', 'client:reuse',
+          'client:pipe', 'client:pipe-slow', 'client:http', 'client:lmtp',
+          'client:reuse',
           'client:idle-partial']
 STATES_MEASURE = 'distinct (side, relay kind, stage, stall shape, pipelining) tuples'
 STEP_CAP = 400000
@@ -86,6 +87,9 @@ def generate(seed, tier='quick'):
                     'idx': rng.randrange(3),
                     'reuse': rng.random() < 0.3,
                     'gap': rng.choice([1.0, 2.5])})
+        if kind == 'pipe':
+            scn['pipe_mode'] = rng.choice(['one-hang', 'all-hang', 'slow'])
+            scn['nr'] = rng.randint(1, 4)
     return scn
 
 
@@ -329,6 +333,18 @@ def _client(world, scn, result):
         world.probe('client:pipe')
         rs['proc_script'] = {'r0.%d@d.example' % (scn['idx'] % nr):
                              {'hang': True}}
+        pm = scn.get('pipe_mode', 'one-hang')
+        if pm == 'all-hang':
+            # one process per recipient, every one of them hangs: the single
+            # timeout bounds the attempt, not each process
+            rs['proc_script'] = {'r0.%d@d.example' % j: {'hang': True}
+                                 for j in range(nr)}
+        elif pm == 'slow' and nr >= 2 and kind == 'pipe':
+            # no process hangs, each takes most of the timeout
+            rs['proc_script'] = {'r0.%d@d.example' % j:
+                                 {'lat': 0.7 * to['single']}
+                                 for j in range(nr)}
+            world.probe('client:pipe-slow')
         if kind == 'pipe1':
             attempts[0]['rcpts'] = attempts[0]['rcpts'][:1]
             rs['proc_script'] = {'r0.0@d.example': {'hang': True}}
